@@ -133,6 +133,13 @@ func buildScriptX(fr *FuncResult, upto int, goal string, pre string, assumptions
 			}
 		}
 	}
+	myRegion := ""
+	if pathHyps && fr.Spec.Opts["region-hyps"] != "" {
+		myRegion = hintRegion(fr.Facts[upto].Info)
+		if strings.HasSuffix(myRegion, "[n]") || strings.HasSuffix(myRegion, "[result]") {
+			myRegion = "" // a goal about a whole subtree combines the hints of its regions
+		}
+	}
 	for j := 0; j < upto; j++ {
 		if assumptionsOnly && fr.Facts[j].Oblig {
 			continue
@@ -140,6 +147,13 @@ func buildScriptX(fr *FuncResult, upto int, goal string, pre string, assumptions
 		if pathHyps && fr.Facts[j].Oblig && strings.Contains(fr.Facts[j].Name, "#assert[") {
 			if a := hintAntecedent(fr.Facts[j].Info); a != "" && a != myAnte && !ownGroup[j] {
 				continue
+			}
+			// within one path: a hint about the objects of one region (forall x :: { x in R } ...) is proved
+			// without the hints about the other regions
+			if myRegion != "" {
+				if r := hintRegion(fr.Facts[j].Info); r != "" && r != myRegion {
+					continue
+				}
 			}
 		}
 		if f := fr.Facts[j]; f.Oblig && grp != "" && oblGroup(f.Name) != grp && !strings.HasPrefix(f.Kind, "assert") && !strings.Contains(f.Kind, "lemma") && (strings.Contains(f.Term, "(forall ") || strings.Contains(f.Term, "(exists ")) {
@@ -174,6 +188,26 @@ func hintAntecedent(info string) string {
 		return ""
 	}
 	return strings.TrimSpace(t[:k])
+}
+
+// hintRegion: R for a hint "hint: P ==> (forall x T :: { x in R } ...)", "" otherwise.
+func hintRegion(info string) string {
+	k := strings.Index(info, " ==> (forall ")
+	if k < 0 || hintAntecedent(info) == "" {
+		return ""
+	}
+	t := info[k+len(" ==> (forall "):]
+	b := strings.Index(t, ":: { ")
+	if b < 0 || b > 40 {
+		return ""
+	}
+	t = t[b+len(":: { "):]
+	in := strings.Index(t, " in ")
+	e := strings.Index(t, " }")
+	if in < 0 || e < 0 || in > e {
+		return ""
+	}
+	return strings.TrimSpace(t[in+4 : e])
 }
 
 func runSolver(sd solverDef, script string, file string, timeout time.Duration, seed int) (string, string, float64) {
